@@ -52,7 +52,7 @@ PROPS["C02"] = dict(
     rule=PAIR_RULE + "; implementation answers A.Intersects(B), B.Intersects(A) compared with the Coq model and with the arrangement oracle meets_x",
     trusted_base=COMMON_TB + ["the executable arrangement oracle coq/PairSpec.v (meets_x) as ground truth for polygon pairs: its completeness is not proved (polygonal Jordan curve theorem, DESIGN §9)"],
     assumptions=["float64 exact on D"],
-    partial=["ring x segment and ring x line string are proved exact as point sets (Jordan.v, JordanQ.v); exactness of ring x ring and of pairs involving holes is explored against the oracle, not proved"],
+    partial=["ring x segment, ring x line string and ring x ring (polygons without holes) are proved exact as point sets and symmetric (Jordan.v, JordanQ.v, JordanRing.v); exactness of pairs involving holes, and of a Rect used as a ring, is explored against the oracle, not proved"],
 )
 PROPS["C03"] = dict(
     streams=["C03"], kernel_cases=200, timeout=1500, classify=classes.classify_c03,
